@@ -20,7 +20,7 @@ impl Check for C03C {
     fn prepare(&self, stage: &str, tier: Tier, _input: &[String]) -> Box<dyn Space> {
         match stage {
             "unsupported" => Box::new(Listed { cases: unsupported() }),
-            "garbage" => Box::new(Garbage::new(tier.pick(4, 6))),
+            "garbage" => Box::new(Garbage::new(tier.pick(5, 7))),
             "edits" => Box::new(Edits { inner: Edit1::new(seeds(), SIGMA) }),
             _ => Box::new(Families { fams: families(), soft_cap: tier.pick(1.0, 3.0), tier }),
         }
@@ -31,8 +31,8 @@ impl Check for C03C {
     fn meta(&self) -> Meta {
         Meta {
             rule: "stage garbage: every token string of length <= L over an 18-token alphabet of markup characters and keywords; stage edits: the token-edit-distance-1 neighbourhood of ~60 seed documents; stage unsupported: every placement of parameter-entity declarations/references and other unsupported constructs; stage families: hostile shape families (deep nesting, wide siblings, many attributes, long data, entity chains / fan-out / cycles, nested content-model groups in five shapes, long failing alternatives) with sizes growing until a soft time cap. Each input runs from_raw (raw and merged-text), a full walk of every infoset and DOM accessor, Display and pretty() in a supervised worker; outcome classes Ok/Err are the only acceptable ones. Non-trivial = the input reached at least the infoset stage (parse returned Ok) or belongs to a hostile family.",
-            bounds_quick: "garbage length <= 4 (18 tokens); edit distance 1; nesting to 2^16, widths to 2^15, content-model depth <= 40; soft cap 1 s per family member, hard cap 20 s per case",
-            bounds_thorough: "garbage length <= 6 (18 tokens: 36M strings); edit distance 1; same families with soft cap 3 s, hard cap 60 s",
+            bounds_quick: "garbage length <= 5 (18 tokens: 2M strings); edit distance 1; nesting to 2^16, widths to 2^15, content-model depth <= 40; soft cap 1 s per family member, hard cap 20 s per case",
+            bounds_thorough: "garbage length <= 7 (18 tokens: 648M strings); edit distance 1; same families with soft cap 3 s, hard cap 60 s",
             assumptions: &[
                 "a family member exceeding the soft cap while the previous member finished 100x faster is reported as a blow-up with both timings (a cap, not a measured complexity class)",
                 "the worker's main thread has the default 8 MiB stack, as a caller has",
